@@ -557,3 +557,219 @@ Proof.
     intros L. destruct (lift_plain kl F cs _ cs' b O (Forall_inv W) eq_refl L) as [O' [_ [_ [D NB]]]].
     split; [exact O'|split; [exact D|]]. intros Lv _. apply NB; [reflexivity|]. apply LH, Lv; reflexivity.
 Qed.
+
+(* ---------------------------------------------------------------------------------------------- *)
+(** * 4. Calls, sequences, reachable states *)
+
+Lemma oinv_kill : forall kl x, oinv kl x -> oinv kl (kill x).
+Proof. intros kl x [a b c d]. constructor; auto. Qed.
+
+Lemma c_call_cinv : forall kl gt F GF cs call, glue_ok gt = true -> cinv kl cs -> valid_call cs call = true -> wf_call kl call ->
+  cinv kl (fst (c_call gt cfg_fixed F GF cs call)).
+Proof.
+  intros kl gt F GF cs call G [I O] V W. split; [apply c_call_inv; auto|].
+  destruct (glue_ok_struct gt G) as [H1 [H2 _]].
+  unfold c_call. destruct (dead cs); [exact O|].
+  destruct (existsb _ (g_pre_deref _)); [apply oinv_kill; exact O|].
+  destruct (existsb _ (g_checked _)); [exact O|].
+  destruct (existsb _ (derefs _)); [apply oinv_kill; exact O|].
+  destruct (body _ cfg_fixed F GF cs call) as [cs' b] eqn:B.
+  destruct (body_compose kl (glue_of gt (fname (c_args call))) F GF cs call cs' b I O V W) as [O' _]; [| |exact B|].
+  - intros f A. rewrite A. exact H1.
+  - intros r A. rewrite A. exact H2.
+  - destruct b; cbn [fst]; auto. destruct (g_try _); cbn [fst]; auto. apply oinv_kill; exact O'. apply oinv_kill; exact O'.
+Qed.
+
+Lemma c_run_cinv : forall kl gt F GF calls cs, glue_ok gt = true -> cinv kl cs ->
+  valid_sequence gt cfg_fixed F GF cs calls = true -> Forall (wf_call kl) calls ->
+  cinv kl (fst (c_run gt cfg_fixed F GF cs calls)).
+Proof.
+  intros kl gt F GF calls. induction calls as [|x t IH]; intros cs G C V W; cbn in *; auto.
+  apply andb_true_iff in V. destruct V as [V1 V2]. inversion W as [|? ? W1 W2]; subst.
+  pose proof (c_call_cinv kl gt F GF cs x G C V1 W1) as C1.
+  destruct (c_call gt cfg_fixed F GF cs x) as [cs' r]. cbn [fst] in *.
+  specialize (IH cs' G C1 V2 W2). destruct (c_run gt cfg_fixed F GF cs' t) as [cs'' rs]. exact IH.
+Qed.
+
+Lemma cinv0 : forall kl, cinv kl cstate0.
+Proof. intros kl. split; [exact ginv0|apply oinv0]. Qed.
+
+(* the states a C program can reach through the interface *)
+Inductive c_reach (kl : nat -> nat) (gt : list glue) (F GF : nat -> bool) : cstate -> Prop :=
+| cr_init : c_reach kl gt F GF cstate0
+| cr_call : forall cs call, c_reach kl gt F GF cs -> valid_call cs call = true -> wf_call kl call ->
+            c_reach kl gt F GF (fst (c_call gt cfg_fixed F GF cs call)).
+
+Theorem reach_cinv : forall kl gt F GF cs, glue_ok gt = true -> c_reach kl gt F GF cs -> cinv kl cs.
+Proof. intros kl gt F GF cs G R. induction R; [apply cinv0|apply c_call_cinv; auto]. Qed.
+
+Lemma all_released_gget : forall cs p, all_released cs = true -> gget cs p = Null.
+Proof.
+  intros cs p R. unfold all_released in R. rewrite forallb_forall in R. unfold gget.
+  destruct (nth_in_or_default p (gs cs) Null) as [Hin|Hd]; [|exact Hd].
+  specialize (R _ Hin). destruct (nth p (gs cs) Null); try discriminate; reflexivity.
+Qed.
+
+Lemma released_all_gone : forall kl cs, oinv kl cs -> all_released cs = true -> all_gone (cw cs).
+Proof.
+  intros kl cs O R j. destruct (Nat.lt_ge_cases j 4) as [Hj|Hj].
+  - apply has_false_none. rewrite <- (oinv_link _ _ _ O Hj). apply null_live_false. apply all_released_gget; exact R.
+  - unfold get_obj. apply nth_overflow. rewrite (inv_len (cb_inv _ _ _ O)). exact Hj.
+Qed.
+
+(* what the composed invariant says once everything has been released *)
+Theorem cinv_released : forall kl cs, cinv kl cs -> all_released cs = true ->
+  balanced (rev (trace (gm cs))) /\ balanced (rev (trace (wm (cw cs))))
+  /\ hp (gm cs) = [] /\ hp (wm (cw cs)) = []
+  /\ errs (gm cs) = [] /\ errs (wm (cw cs)) = []
+  /\ lost (gm cs) = [] /\ lost (wm (cw cs)) = []
+  /\ all_gone (cw cs) /\ crashed (cw cs) = false.
+Proof.
+  intros kl cs [I O] R.
+  pose proof (released_all_gone kl cs O R) as AG.
+  destruct (balanced_when_all_gone kl (cw cs) (cb_inv _ _ _ O) AG) as [B [Hh [Hl He]]].
+  assert (Hg : hp (gm cs) = []).
+  { pose proof (gi_perm _ I) as P. unfold all_released in R. rewrite (blocks_all_null _ R) in P. apply Permutation_nil in P. exact P. }
+  split. { unfold balanced. rewrite (gi_replay _ I), Hg. reflexivity. }
+  split; [exact B|]. split; [exact Hg|]. split; [exact Hh|]. split; [apply (cb_errs _ _ _ O)|]. split; [exact He|].
+  split; [apply (cb_lost _ _ _ O)|]. split; [exact Hl|]. split; [exact AG|apply (inv_nc (cb_inv _ _ _ O))].
+Qed.
+
+(* ---- memory safety of one call ---- *)
+Definition no_report (a : cargs) : bool := match a with AAcc _ | ASearch _ | AEval | ADeriv | AGrad => true | _ => false end.
+(* OBLIGATION on the glue table: every wrapper that can report a failure tests table->data before its body uses it *)
+Definition table_checked (gt : list glue) (a : cargs) : bool :=
+  negb (needs_live a) || no_report a || inb "table->data"%string (g_checked (glue_of gt (fname a))).
+
+Lemma table_checked_all : forall gt, forallb (table_checked gt) all_shapes = true -> forall a, table_checked gt a = true.
+Proof.
+  intros gt H a. rewrite forallb_forall in H.
+  destruct a; try reflexivity;
+    match goal with |- table_checked gt ?x = true => change (table_checked gt (shape_of x) = true) end;
+    apply H; unfold all_shapes, all_accs; cbn [map app shape_of]; cbn [In]; tauto.
+Qed.
+
+Lemma existsb_single : forall s l, existsb (fun a => inb a [s]) l = inb s l.
+Proof.
+  intros s l. induction l as [|b t IH]; [reflexivity|].
+  change (existsb (fun a => inb a [s]) (b :: t)) with (inb b [s] || existsb (fun a => inb a [s]) t).
+  rewrite IH. cbn [inb]. rewrite (String.eqb_sym b s). destruct (String.eqb s b); reflexivity.
+Qed.
+
+Lemma eff_nulls_valid : forall cs call, valid_call cs call = true ->
+  c_nulls call = [] /\ eff_nulls cs call = if live cs (c_h call) then [] else ["table->data"%string].
+Proof.
+  intros cs call V. unfold valid_call in V. apply andb_true_iff in V. destruct V as [V V3].
+  apply andb_true_iff in V. destruct V as [_ Vn]. destruct (c_nulls call) eqn:N; [|discriminate]. split; [reflexivity|].
+  unfold eff_nulls. rewrite N. cbn [inb app].
+  destruct (c_args call); try apply app_nil_r.
+  apply andb_true_iff in V3. destruct V3 as [_ V3]. rewrite V3. apply app_nil_r.
+Qed.
+
+Lemma ret_of_not_crashed : forall x, ret_of x <> Crashed.
+Proof. destruct x; discriminate. Qed.
+Lemma ret_ok_not_crashed : forall g, ret_ok g <> Crashed.
+Proof.
+  intros g. unfold ret_ok. destruct (g_ok_ret g); try discriminate.
+  destruct (String.eqb _ _); [discriminate|]. destruct (String.eqb _ _); discriminate.
+Qed.
+Lemma ret_false_not_crashed : forall g, ret_false g <> Crashed.
+Proof. intros g. unfold ret_false. destruct (g_false_ret g); try discriminate. destruct (String.eqb _ _); discriminate. Qed.
+
+Theorem call_safe : forall kl gt F GF cs call,
+  glue_ok gt = true -> forallb (table_checked gt) all_shapes = true ->
+  cinv kl cs -> dead cs = false -> valid_call cs call = true -> wf_call kl call -> doc_pre cs call = true ->
+  snd (c_call gt cfg_fixed F GF cs call) <> Crashed /\ dead (fst (c_call gt cfg_fixed F GF cs call)) = false.
+Proof.
+  intros kl gt F GF cs call G TC [I O] D V W P.
+  destruct (glue_ok_struct gt G) as [H1 [H2 H3]].
+  destruct (eff_nulls_valid cs call V) as [N EN].
+  unfold c_call. rewrite D, EN, N. rewrite existsb_inb_nil.
+  set (g := glue_of gt (fname (c_args call))).
+  destruct (existsb _ (g_checked g)) eqn:CK.
+  { cbn [fst snd]. split; [apply ret_of_not_crashed|exact D]. }
+  assert (LV : needs_live (c_args call) = true -> live cs (c_h call) = true).
+  { intros NL. destruct (live cs (c_h call)) eqn:Lv; [reflexivity|]. exfalso.
+    rewrite existsb_single in CK. pose proof (table_checked_all gt TC (c_args call)) as T. unfold table_checked in T.
+    rewrite NL in T. cbn [negb orb] in T. fold g in T. rewrite CK, orb_false_r in T.
+    unfold doc_pre in P. destruct (c_args call); try discriminate T; rewrite Lv in P; discriminate P. }
+  assert (DR : existsb (fun a => inb a (if live cs (c_h call) then [] else ["table->data"%string])) (derefs (c_args call)) = false).
+  { destruct (live cs (c_h call)) eqn:Lv; [apply existsb_inb_nil|].
+    rewrite existsb_single, <- needs_live_derefs. destruct (needs_live (c_args call)); [|reflexivity]. discriminate (LV eq_refl). }
+  rewrite DR.
+  destruct (body g cfg_fixed F GF cs call) as [cs' b] eqn:B.
+  destruct (body_compose kl g F GF cs call cs' b I O V W) as [_ [D' NB]]; [| |exact B|].
+  { intros f A. unfold g. rewrite A. exact H1. } { intros r A. unfold g. rewrite A. exact H2. }
+  specialize (NB LV P). rewrite D in D'.
+  destruct b; cbn [fst snd].
+  - split; [apply ret_ok_not_crashed|exact D'].
+  - split; [apply ret_false_not_crashed|exact D'].
+  - pose proof (body_throw_may_throw _ _ _ _ _ _ _ _ B) as M.
+    pose proof (protected_all gt H3 (c_args call)) as Pr. unfold glue_protected in Pr. rewrite M in Pr. cbn in Pr.
+    rewrite orb_false_r in Pr. fold g in Pr. rewrite Pr. cbn [fst snd]. split; [apply ret_of_not_crashed|exact D'].
+  - exfalso. apply NB. reflexivity.
+Qed.
+
+(* the member(s) a wrapper forwards to are safe_to_call (C20's `safe`) in the state the call finds, and never UB *)
+Theorem twins_safe : forall kl cs call F x, cinv kl cs -> wf_call kl call -> In x (twins (c_args call) (c_h call)) ->
+  (forall o, get_obj (cw cs) (target x) = Some o -> safe cfg_fixed o None x = true)
+  /\ snd (cpp_step cfg_fixed F (cw cs) x) <> UB
+  /\ Inv kl (fst (cpp_step cfg_fixed F (cw cs) x)).
+Proof.
+  intros kl cs call F x [_ O] W Hin. unfold wf_call in W. rewrite Forall_forall in W. specialize (W x Hin).
+  destruct (step_Inv kl F (cw cs) x (cb_inv _ _ _ O) W) as [A B]. split; [|split; [exact B|exact A]].
+  intros o Eo. apply (safe_from_Inv kl (cw cs) x o None (cb_inv _ _ _ O) Eo). intros o2 E; discriminate.
+Qed.
+
+(* documented preconditions along a run *)
+Fixpoint pre_sequence (gt : list glue) (c : cfg) (F GF : nat -> bool) (cs : cstate) (calls : list ccall) : bool :=
+  match calls with
+  | [] => true
+  | x :: t => doc_pre cs x && pre_sequence gt c F GF (fst (c_call gt c F GF cs x)) t
+  end.
+
+Lemma c_run_safe : forall kl gt F GF calls cs, glue_ok gt = true -> forallb (table_checked gt) all_shapes = true ->
+  cinv kl cs -> dead cs = false ->
+  valid_sequence gt cfg_fixed F GF cs calls = true -> Forall (wf_call kl) calls -> pre_sequence gt cfg_fixed F GF cs calls = true ->
+  ~ In Crashed (snd (c_run gt cfg_fixed F GF cs calls)) /\ dead (fst (c_run gt cfg_fixed F GF cs calls)) = false.
+Proof.
+  intros kl gt F GF calls. induction calls as [|x t IH]; intros cs G TC C D V W P; cbn in *.
+  - split; [intros []|exact D].
+  - apply andb_true_iff in V. destruct V as [V1 V2]. apply andb_true_iff in P. destruct P as [P1 P2].
+    inversion W as [|? ? W1 W2]; subst.
+    pose proof (c_call_cinv kl gt F GF cs x G C V1 W1) as C1.
+    destruct (call_safe kl gt F GF cs x G TC C D V1 W1 P1) as [NC D1].
+    destruct (c_call gt cfg_fixed F GF cs x) as [cs' r]. cbn [fst snd] in *.
+    destruct (IH cs' G TC C1 D1 V2 W2 P2) as [NI D2]. destruct (c_run gt cfg_fixed F GF cs' t) as [cs'' rs]. cbn [fst snd] in *.
+    split; [|exact D2]. intros [E|Hin]; [apply NC; exact E|apply NI; exact Hin].
+Qed.
+
+Lemma c_run_no_escape : forall gt c F GF calls cs why, forallb (glue_protected gt) all_shapes = true ->
+  ~ In (Escaped why) (snd (c_run gt c F GF cs calls)).
+Proof.
+  intros gt c F GF calls. induction calls as [|x t IH]; intros cs why Hp; cbn; [intros []|].
+  pose proof (no_escape gt c F GF cs x why Hp) as NE.
+  destruct (c_call gt c F GF cs x) as [cs' r]. cbn [snd] in NE.
+  specialize (IH cs' why Hp). destruct (c_run gt c F GF cs' t) as [cs'' rs]. cbn [snd] in *.
+  intros [E|Hin]; [apply NE; exact E|apply IH; exact Hin].
+Qed.
+
+(* ---- C18_balanced: the WHOLE allocation behaviour of a valid call sequence ---- *)
+Theorem balanced_whole : forall kl gt F GF calls,
+  glue_ok gt = true ->
+  valid_sequence gt cfg_fixed F GF cstate0 calls = true ->
+  Forall (wf_call kl) calls ->
+  all_released (fst (c_run gt cfg_fixed F GF cstate0 calls)) = true ->
+  let cs := fst (c_run gt cfg_fixed F GF cstate0 calls) in
+  balanced (rev (trace (gm cs))) /\ balanced (rev (trace (wm (cw cs))))
+  /\ hp (gm cs) = [] /\ hp (wm (cw cs)) = []
+  /\ errs (gm cs) = [] /\ errs (wm (cw cs)) = []
+  /\ lost (gm cs) = [] /\ lost (wm (cw cs)) = []
+  /\ all_gone (cw cs) /\ crashed (cw cs) = false
+  /\ (forall why, ~ In (Escaped why) (snd (c_run gt cfg_fixed F GF cstate0 calls))).
+Proof.
+  intros kl gt F GF calls G V W R cs.
+  pose proof (c_run_cinv kl gt F GF calls cstate0 G (cinv0 kl) V W) as C.
+  destruct (cinv_released kl cs C R) as [A1 [A2 [A3 [A4 [A5 [A6 [A7 [A8 [A9 A10]]]]]]]]].
+  repeat (split; [assumption|]). intros why. apply c_run_no_escape. destruct (glue_ok_struct gt G) as [_ [_ H]]. exact H.
+Qed.
